@@ -39,7 +39,7 @@ def bindings():
 
 
 def leaves_of(r):
-    if r[0] in ("x", "q", "n", "f", "d"):
+    if r[0] in ("x", "q", "n", "f", "d", "dm"):
         return 1
     if r[0] == "c":
         return 0
@@ -47,12 +47,13 @@ def leaves_of(r):
 
 
 def depth(r):
-    if r[0] in ("x", "q", "n", "f", "d", "c"):
+    if r[0] in ("x", "q", "n", "f", "d", "dm", "c"):
         return 0
     return 1 + max(depth(a) for a in r[1:] if isinstance(a, tuple))
 
 
-BASE = [("x", 0), ("x", 1), ("q", 0), ("q", 1), ("n",), ("f", 0), ("d", 1), ("d", 2)]
+# ("dm", "010"): the unevaluated mixed derivative of g(x0, x1) with respect to x0, x1, x0 (a variable repeated in non-adjacent entries)
+BASE = [("x", 0), ("x", 1), ("q", 0), ("q", 1), ("n",), ("f", 0), ("d", 1), ("d", 2), ("dm", "01"), ("dm", "010")]
 
 
 def expand(pool, max_leaves):
@@ -123,6 +124,8 @@ def build(r, env):
         return env["f"](env["x"][0])
     if op == "d":
         return sp.Derivative(env["f"](env["x"][0]), (env["x"][0], r[1]))
+    if op == "dm":
+        return sp.Derivative(env["g"](env["x"][0], env["x"][1]), *[env["x"][int(i)] for i in r[1]], evaluate=False)
     args = [build(a, env) for a in r[1:] if isinstance(a, tuple)]
     if op == "add":
         return sp.Add(*args)
@@ -155,6 +158,8 @@ def rstr(r):
         return "f(x0)"
     if op == "d":
         return f"d{r[1]}f/dx0"
+    if op == "dm":
+        return "d g(x0,x1)/" + "".join(f"dx{i}" for i in r[1])
     return f"{op}({','.join(rstr(a) for a in r[1:] if isinstance(a, tuple))})"
 
 
@@ -163,6 +168,7 @@ def make_env(ses, concrete=None):
     if concrete is None:
         xs = [Symbol(f"x{i}", ses.dim(f"Dx{i}_"), real=True) for i in range(2)]
         f = Function("f", [xs[0]], ses.dim("Df_"))
+        g = Function("g", [xs[0], xs[1]], ses.dim("Dg_"))
         qs = [make_quantity(ses.scalar(f"s{i}_"), ses.dim(f"Dq{i}_")) for i in range(2)]
         n = ses.scalar("n")
     else:
@@ -171,9 +177,10 @@ def make_env(ses, concrete=None):
         mk = lambda tag, exps: (concrete["mkdim2"] if tag in concrete.get("respell", ()) else concrete["mkdim"])(exps)
         xs = [Symbol(f"x{i}", mk(f"x{i}", concrete["Dx"][i]), real=True) for i in range(2)]
         f = Function("f", [xs[0]], mk("f", concrete["Df"]))
+        g = Function("g", [xs[0], xs[1]], mk("g", concrete.get("Dg", concrete["Df"])))
         qs = [Quantity(sp.Rational(concrete["s"][i]), dimension=mk(f"q{i}", concrete["Dq"][i])) for i in range(2)]
         n = sp.Rational(concrete["n"])
-    return {"x": xs, "f": f, "q": qs, "n": n}
+    return {"x": xs, "f": f, "g": g, "q": qs, "n": n}
 
 
 def check_recipe(r):
@@ -258,7 +265,7 @@ def check_recipe(r):
                 if res != "unsat" or p.unknown:
                     unknown = True
             # commuting diagram with quantity construction on successful paths (trees without functions/derivatives)
-            if bad is None and not wrap and not any(t in str(r) for t in ("'fn'", "'f'", "'d'")):
+            if bad is None and not wrap and not any(t in str(r) for t in ("'fn'", "'f'", "'d'", "'dm'")):
                 diag = diagram(ses, env, expr, paths, CQ)
                 out["sub"]["diagram"] = diag[0]
                 if diag[0] == "sat":
@@ -272,7 +279,7 @@ def check_recipe(r):
         if bad is not None:
             p, label, m = bad
             mv = lambda t: str(model_value(m, t))
-            model = {"Dx": [[mv(c) for c in to_vec(x.dimension)] for x in env["x"]], "Df": [mv(c) for c in to_vec(env["f"].dimension)],
+            model = {"Dx": [[mv(c) for c in to_vec(x.dimension)] for x in env["x"]], "Df": [mv(c) for c in to_vec(env["f"].dimension)], "Dg": [mv(c) for c in to_vec(env["g"].dimension)],
                      "Dq": [[mv(c) for c in to_vec(q.dimension)] for q in env["q"]], "s": [mv(ses.z(q.scale_factor)) for q in env["q"]],
                      "n": mv(ses.z(env["n"])), "sx": [mv(ses.z(v)) for v in env.get("sx", [])],
                      "xv": [mv(ses.z(x)) for x in env["x"]], "label": label}
@@ -495,6 +502,43 @@ if not ok:
 '''
 
 
+REPLAY_WRAPPERS = r'''
+import sys
+from checks import c06
+bad = c06.wrapper_history()
+for b in bad: print(b)
+if bad:
+    print("REPRODUCED"); sys.exit(1)
+'''
+
+
+def wrapper_history():
+    """wrappers (Average, FiniteDifference, ExactDifferential) take their dimension from inference on their OWN operand: creating a
+    wrapper of a look-alike operand (same display name, other dimension) or with other flags must not change an earlier wrapper"""
+    from sympy.physics import units
+    from symplyphysics import Symbol
+    from symplyphysics.core.operations import symbolic as SY
+    from sympy.physics.units.systems.si import dimsys_SI
+    bad = []
+    for cls in (SY.Average, SY.FiniteDifference, SY.ExactDifferential):
+        k1, k2 = Symbol("K", units.energy), Symbol("K", units.pressure)
+        a = cls(k1)
+        d_before = a.dimension
+        b = cls(k2)
+        if not dimsys_SI.equivalent_dims(a.dimension, units.energy) or a.factor is not k1:
+            bad.append(f"{cls.__name__}(K: energy) reports {a.dimension} (operand {a.factor!r} is the first one: {a.factor is k1}) after {cls.__name__}(K: pressure) was created; before: {d_before}")
+        if not dimsys_SI.equivalent_dims(b.dimension, units.pressure):
+            bad.append(f"{cls.__name__}(K: pressure) reports {b.dimension}")
+        c = cls(k1 * k2)
+        if not dimsys_SI.equivalent_dims(c.dimension, units.energy * units.pressure):
+            bad.append(f"{cls.__name__}(K*K) reports {c.dimension}")
+        w1 = cls(k1, wrap_latex=False)
+        w2 = cls(k1, wrap_latex=True, wrap_code=True)
+        if w1.wrap_latex is not False or w1.wrap_code is not False:
+            bad.append(f"{cls.__name__}(K) created without wrapping reports wrap flags {(w1.wrap_code, w1.wrap_latex)} after a wrapped twin was created")
+    return bad
+
+
 def concrete_specials(ctx):
     """infinite / NaN / literal-zero terms are excepted (finite enumeration of concrete trees; not solver-decided)"""
     from sympy.physics import units
@@ -506,6 +550,11 @@ def concrete_specials(ctx):
     cases = {"t+oo": (lambda: t + sp.oo, "time"), "t-oo": (lambda: t - sp.oo, "time"), "Add(t,nan)": (lambda: sp.Add(t, sp.nan, evaluate=False), "time"),
              "Max(0,t)": (lambda: sp.Max(0, t), "time"),              "Min(oo,l)": (lambda: sp.Min(sp.oo, l, evaluate=False), "length"), "t+Quantity(0 m)": (lambda: t + Quantity(0 * units.meter), "time"),
              "Quantity(0 m)+t": (lambda: Quantity(0 * units.meter, display_symbol="a_zero") + t, "time")}
+    wb = wrapper_history()
+    if wb:
+        ctx.violation("C06:wrappers:look-alike operands share one instance", "; ".join(wb)[:600], REPLAY_WRAPPERS)
+    else:
+        ctx.ob("wrappers keep the dimension inferred from their own operand (look-alike operands, wrap flags)", "discharged", nontrivial=False)
     for name, (mk, want) in cases.items():
         try:
             e, d = collect_expression_and_dimension(mk())
